@@ -10,10 +10,30 @@ claimed = {
    text="for each of the 32 operations the real method, sendto/broadcast, codec.Marshal (reflection walk), every MarshalUT0311L0x and bcd.Encode are executed symbolically with all arguments symbolic over their whole domain; the 64 request bytes recorded at the transport seam are asserted equal to an independent protocol table; unsat = holds for every argument tuple in the stated domain",
    note="bounds: years 1..9999, HH:mm 00:00..24:00, PIN 0..999999, map keys 1..5 / the seven weekdays with symbolic presence and nil-ness, passcode lists of length 0,1,3,4,6; zone = any fixed offset (Z1); history half (independence of earlier calls) argued from single-call exactness, not yet solved as two-call harnesses. " + TRUST,
    ref="DESIGN.md section 6 C01"),
+ "C02": dict(
+   text="for each of the 30 reply-bearing operations the whole 64-byte reply is symbolic (2^512 contents, header fixed so that it is accepted); sendto, codec.UnmarshalAs (reflection walk), every UnmarshalUT0311L0x, bcd.Decode and the result mapping / sentinel logic are executed symbolically and every result field is asserted equal to an independent protocol-table decoding; out-of-domain wire values must fail the call or come back as the zero value",
+   note="zone = any fixed offset; years 0000/0001 and the two-digit system-date years 69..99 are not asserted on; By-id lookups with a requested card 0xffffffff follow the code's behaviour. " + TRUST,
+   ref="DESIGN.md section 6 C02"),
+ "C03": dict(
+   text="the library's real receive filter and sendto checks are run on k datagrams of symbolic length 0..2048 and content (broadcast route) or one such datagram (udp/tcp routes): a result implies a 64-byte datagram with the right protocol id, function code and serial number, it is the first such datagram, its content is what is decoded, anything else fails the call; SetAddress consumes nothing",
+   note="bounds: k <= 2 datagrams quick, <= 4 thorough (longer sequences argued from the loop being memoryless); representative operations GetCards, OpenDoor, GetStatus; the ut0311 socket loop itself is not encoded (seam level). " + TRUST,
+   ref="DESIGN.md section 6 C03"),
+ "C05": dict(
+   text="for each of the 65 message struct types a reflection-driven harness fills every field with a symbolic in-domain value, runs codec.Marshal then codec.Unmarshal and asserts field-wise equality; for 8 (quick) / 65 (thorough) types two symbolic buffers that agree on all field bytes are asserted to decode to equal values; UnmarshalRequest/UnmarshalResponse are run on a header with symbolic length, protocol id and function code (33-way case split decided by the solver)",
+   note="zone = any fixed offset; years 1..9999 plus the zero values; SystemDate 2000..2068; dispatcher bodies are zero bytes (body decoding is C02/C04); the field-byte mask is derived from the layout tags. " + TRUST,
+   ref="DESIGN.md section 6 C05"),
+ "C06": dict(
+   text="routing decision executed symbolically over the device table (entry present or not, one unrelated entry), address validity, any IPv4 address and port, protocol strings of length 0,3,4 (1,2 thorough) with symbolic bytes, broadcast address valid or not: asserted which driver method is called, exactly once, with which endpoint",
+   note="seam level only (the bind address / socket layer of ut0311 is not encoded); IPv6 controller addresses are outside the property. " + TRUST,
+   ref="DESIGN.md section 6 C06"),
  "C07": dict(
    text="one harness per operation with symbolic controller id and arguments; 'rejected' is observed as the transport call counter staying 0 and asserted equivalent to the documented rejection predicate (id 0; PutCard card/PIN/format rules incl. Wiegand-26 over all 2^32 numbers; SetListener over invalid/IPv4/16-byte address kinds; SetAddress over nil and length 0..16 IPs; SetDoorPasscodes doors; SetTimeProfile dates/segments)",
    note="bounds: format lists of length 0..2 (3 thorough) over all 256 CardFormat values; HH:mm fields -9..99; net.IP length 0..16; IPv6 zones not modelled. " + TRUST,
    ref="DESIGN.md section 6 C07"),
+ "C11": dict(
+   text="GetDevices executed on k datagrams of symbolic length 0..2048 and content with a symbolic device table and broadcast port: the result is asserted to be, in arrival order, exactly one entry per well-formed get-device reply (each field from its protocol offset, address completed by the broadcast port, name from the table), nothing for the others, never an error",
+   note="bounds: k <= 2 quick, <= 4 thorough; the collector goroutine of ut0311.Broadcast is not encoded (seam level). " + TRUST,
+   ref="DESIGN.md section 6 C11"),
  "C12": dict(
    text="bounded symbolic execution of bcd.Encode / bcd.Decode: every input byte is a solver variable, the property (exact digits, error iff non-digit / nibble > 9, both round trips) is asserted against an independent reference; unsat = holds for all 256^n inputs of each length n in the bound",
    note="bound: string length 0..8 / byte length 0..4 (quick), 0..16 / 0..8 (thorough); longer inputs outside the claim. " + TRUST,
@@ -22,6 +42,10 @@ claimed = {
    text="Date and HHmm Before/After/Equals executed symbolically on pairs and triples: trichotomy, mirror image, transitivity, irreflexivity and agreement with lexicographic (y,m,d)/(h,m) order are assertions decided by the solver over all valid dates 0001..9999 (any fixed zone offset) and all int-valued HH:mm fields",
    note="DateTime.Before and the SetTimeProfile segment check are covered by C07's SetTimeProfile harness (segment rule) and not yet for DateTime.Before (UnixMilli not modelled). " + TRUST,
    ref="DESIGN.md section 6 C16"),
+ "C17": dict(
+   text="havoc-after: after construction / the call / the clone, every settable cell reachable from the caller's data or from the transport buffer is overwritten with fresh solver variables and the routing decision, arguments or results are asserted unchanged; a shared cell shows up as a satisfiable difference",
+   note="covers NewUHPPOTE + DeviceList, PutCard/SetTimeProfile/SetAddress/ActivateKeypads arguments, GetDevice/GetCardByIndex/GetListener results, Device.Clone and Card.Clone; door-name slices reachable through DeviceList are not part of the property (routing only). " + TRUST,
+   ref="DESIGN.md section 6 C17"),
 }
 
 not_applicable = {
